@@ -2,6 +2,7 @@ package verifsim
 
 import (
 	"context"
+	"errors"
 	"fmt"
 	"sort"
 	"strings"
@@ -9,6 +10,7 @@ import (
 
 	blocks "github.com/ipfs/go-block-format"
 	"github.com/ipfs/go-cid"
+	"github.com/sourcenetwork/corekv"
 	"github.com/sourcenetwork/immutable"
 
 	"github.com/sourcenetwork/defradb/acp/identity"
@@ -43,6 +45,8 @@ func (e1Engine) Gen(prop string, seed int64, tier string) *Plan {
 	if prop == "C11" {
 		p.Cfg["col"] = 0
 		p.Cfg["enc"] = 1 + r.IntN(2) // 1 doc-level, 2 field-level
+		p.Cfg["keyless"] = r.IntN(1<<n) &^ 1 // node 0 always holds keys
+		p.Cfg["sign"] = 0
 	}
 	nops := 4 + r.IntN(27)
 	if tier == "quick" {
@@ -133,8 +137,11 @@ type e1Run struct {
 	nodeVer  []int    // active version index per node
 	nodePat  []int    // patches applied per node
 	// C11
-	secrets [][]byte
-	tainted map[string]bool
+	secretPats []secretPat
+	secretN    int
+	encKeys    [][]byte
+	creators   map[int]int // slot -> creating node + 1
+	tainted    map[string]bool
 }
 
 func (e1Engine) Run(p *Plan) *Result {
@@ -142,7 +149,7 @@ func (e1Engine) Run(p *Plan) *Result {
 	defer res.finish()
 	runInBubble(res, func() {
 		r := &e1Run{p: p, res: res, byCid: map[string]int{}, docIDs: map[int]string{}, slotOf: map[string]int{},
-			afterLocal: map[int]string{}}
+			afterLocal: map[int]string{}, creators: map[int]int{}}
 		r.props = propsFor(p.Prop)
 		r.run()
 	})
@@ -215,6 +222,7 @@ func (r *e1Run) run() {
 	r.nodeVer = make([]int, n)
 	r.nodePat = make([]int, n)
 	r.openSubscriptions()
+	r.installKMS()
 	synctest.Wait()
 	for _, nd := range r.nodes {
 		nd.TakeUpdates()
@@ -426,6 +434,7 @@ func (r *e1Run) checkNode(step, node int, why string) {
 		r.res.violate(r.pid("C02"), "query-failed", "query-failed", step, "node %d listing failed after %s: %s", node, why, err)
 		return
 	}
+	r.scanResponse(node, canon(all))
 	live, err2 := r.dump(node, false)
 	if err2 != "" {
 		r.res.violate(r.pid("C02"), "query-failed", "query-failed", step, "node %d listing failed after %s: %s", node, why, err2)
@@ -464,7 +473,7 @@ func (r *e1Run) checkNode(step, node int, why string) {
 			return
 		}
 		for _, f := range r.nodeFields(node) {
-			if r.hiddenField(node, slot, f.Name) {
+			if r.hiddenField(node, slot, f.Name) || (r.isEncField(f.Name) && !r.holdsKeys(node, slot)) {
 				continue
 			}
 			got := canon(row[f.Name])
@@ -596,6 +605,7 @@ func (r *e1Run) collectLocal(step, node, slot int, writes map[string]string, inc
 		r.res.HarnessErr = fmt.Sprintf("step %d: local operation produced no update event", step)
 		return nil
 	}
+	r.scanPayload(node, "update-notification", docUp.Block)
 	set := r.mset(node, slot)
 	parents := r.maximal(set, nil)
 	cs := docUp.Cid.String()
@@ -623,6 +633,12 @@ func (r *e1Run) collectLocal(step, node, slot int, writes map[string]string, inc
 }
 
 func (r *e1Run) doCreate(step, node, slot int) {
+	if r.keyless(node) {
+		node = 0 // keyless nodes never create encrypted documents (cfg is masked on replay too)
+		if r.keyless(0) {
+			return
+		}
+	}
 	set := r.mset(node, slot)
 	if len(set) > 0 {
 		r.res.logf("step %d create skipped (node knows doc)", step)
@@ -637,6 +653,19 @@ func (r *e1Run) doCreate(step, node, slot int) {
 		return
 	}
 	lits, wants := r.initialValues(slot)
+	if r.encOn() {
+		for _, f := range userFields {
+			if r.isEncField(f.Name) && f.Name != "name" {
+				if v, ok := r.secretValue(&f, "create"); ok {
+					lits[f.Name], wants[f.Name] = v.Lit, v.Want
+				}
+			}
+		}
+		// name stays the slot marker (docID uniqueness) unless encrypted at field level: then make it secret too
+		if v, ok := r.secretValue(fieldByName("name"), "create"); ok {
+			lits["name"], wants["name"] = v.Lit, v.Want
+		}
+	}
 	nd := r.nodes[node]
 	q := fmt.Sprintf("mutation { create_User(input: %s%s) { _docID } }", inputLit(lits), r.encArgs(slot))
 	data, errs := nd.GQL(q)
@@ -660,6 +689,10 @@ func (r *e1Run) doCreate(step, node, slot int) {
 	}
 	r.docIDs[slot] = id
 	r.slotOf[id] = slot
+	if r.creators[slot] == 0 {
+		r.creators[slot] = node + 1
+	}
+	r.noteKeys(node)
 	writes := map[string]string{}
 	incs := map[string]float64{}
 	for k, w := range wants {
@@ -712,7 +745,7 @@ func (r *e1Run) isUniqueErr(errs []string) bool {
 func (r *e1Run) doUpdate(step, node, slot, fsel, vsel int) {
 	set := r.mset(node, slot)
 	e := r.expect(set)
-	if !e.Exists || e.Deleted {
+	if !e.Exists || e.Deleted || !r.holdsKeys(node, slot) {
 		r.res.logf("step %d update skipped", step)
 		return
 	}
@@ -735,6 +768,11 @@ func (r *e1Run) doUpdate(step, node, slot, fsel, vsel int) {
 			counters++
 		}
 		v := f.Pool[mod(vsel+k*3, len(f.Pool))]
+		if r.encOn() && r.isEncField(f.Name) {
+			if sv, ok := r.secretValue(&f, "update"); ok {
+				v = sv
+			}
+		}
 		lits[f.Name] = v.Lit
 		if f.Counter {
 			var x float64
@@ -905,7 +943,15 @@ func safeMerge(n *SimNode, m event.Merge) (err error) {
 			err = fmt.Errorf("PANIC in merge: %v @ %s", p, panicSite())
 		}
 	}()
-	return n.DB.VerifExecuteMerge(n.ctx, m)
+	// the same retry-on-conflict loop as DB.handleMessages
+	for i := 0; i < n.DB.MaxTxnRetries(); i++ {
+		err = n.DB.VerifExecuteMerge(n.ctx, m)
+		if errors.Is(err, corekv.ErrTxnConflict) {
+			continue
+		}
+		break
+	}
+	return err
 }
 
 func errClass(err error) string {
